@@ -39,7 +39,9 @@ def required_cells(tier):
            "tau:0": 1, "tau:finite": 1, "tau:inf": 1, "basis:rotated": 2,
            "degenerate_o": 1, "unique": 2, "api:tempo": 3, "api:pt": 3,
            "modes": 2, "modes:lindblad": 1, "custom_j": 1,
-           "long-times": 3, "subdiv_limit:small": 6, "pt-route:file": 2, "pt-route:auto-file": 2,
+           "long-times": 3, "subdiv_limit:small": 6,
+           "bath-from-scanned-correlations-object": 3,
+           "initial-state:non-contiguous": 10, "pt-route:file": 2, "pt-route:auto-file": 2,
            "pt-route:reimport-file": 2, "pt-route:file+reopen-simple": 2,
            "pt-route:file-or-import&rotated": 4}
     return req
@@ -208,6 +210,15 @@ def run_commuting(case):
     else:
         corr = gen.make_power_law(p)
     bath = oqupy.Bath(oper, corr)
+    scanned = False
+    if case["idx"] % 11 == 7 and not g["custom"] and nsteps <= 6:
+        # a parameter scan with ONE correlations object: the bath of this
+        # case was taken from it first, then the object was heated up and a
+        # second bath taken, which is run first on the same time grid
+        scanned = True
+        corr.temperature = p["temperature"] * 2.0 + 3.0
+        corr.alpha = p["alpha"] * 0.5
+        hot_bath = oqupy.Bath(oper, corr)
     kw = dict(dt=dt, epsrel=g["epsrel"])
     if kmax is not None:
         if g["use_tcut"]:
@@ -229,7 +240,15 @@ def run_commuting(case):
     try:
         route = ROUTES[(case["idx"] // 2) % len(ROUTES)] \
             if g["api"] == "pt" else "memory"
-        dyn = _run_lib(g["api"], system, bath, rho0, start, dt, nsteps,
+        if scanned:
+            _run_lib("tempo", system, hot_bath, rho0, start, dt, nsteps,
+                     params, g["unique"], "memory")
+        # the caller's array may have any memory layout
+        lay = [None, "F", None, "T"][(case["idx"] // 3) % 4]
+        rho_in = rho0 if lay is None else (
+            np.asfortranarray(rho0) if lay == "F"
+            else np.ascontiguousarray(rho0.T).T)
+        dyn = _run_lib(g["api"], system, bath, rho_in, start, dt, nsteps,
                        params, g["unique"], route)
     finally:
         counter.close()
@@ -287,6 +306,10 @@ def run_commuting(case):
         cells.append("long-times")
     if sub not in (256, None):
         cells.append("subdiv_limit:small")
+    if scanned:
+        cells.append("bath-from-scanned-correlations-object")
+    if lay is not None:
+        cells.append("initial-state:non-contiguous")
     if route != "memory":
         cells.append("pt-route:" + route)
         if g["vkind"] != "identity":
